@@ -116,6 +116,7 @@ func drive() {
 		byteNewline:     e.Quarantined("byte-newline"),
 		nonUTF8String:   e.Quarantined("nonutf8-string"),
 		staticInClosure: e.Quarantined("undef-class-static-in-closure"),
+		altLooseLayout:  e.Quarantined("alt-loose-layout"),
 	}
 
 	// phase 1: span invariants
@@ -181,6 +182,13 @@ func regressionSpanCases() []spanCase {
 		mk("heredoc-blank-lead", "script", "$n = 1;\n$s = <<<EOT\n\nvalue {$n}\nEOT;\necho $s;\n"),
 		mk("heredoc-blank-lead-crlf", "template", "<?php\r\n$n = 1;\r\n$s = <<<EOT\r\n\r\n\r\nvalue $n\r\nEOT;\r\necho $s;\r\n"),
 		mk("heredoc-blank-lead-dollar", "script", "$s = <<<EOT\n\n\ncosts \\$5\n\nEOT;\necho $s;\n"),
+		mk("bs-newline-dq", "script", "$s = \"a\\\nb\";\n$t = 1;\n"),
+		mk("bs-newline-sq", "script", "$s = 'a\\\nb\\\n';\n$t = 1;\n"),
+		mk("bs-newline-backtick", "script", "$s = `a\\\nb`;\n$t = 1;\n"),
+		mk("bs-newline-heredoc", "template", "<?php\n$s = <<<EOT\na \\\nb\\\nEOT;\n$t = 1;\n"),
+		mk("bs-newline-nowdoc", "script", "$s = <<<'EOT'\na \\\nb\nEOT;\n$t = 1;\n"),
+		mk("bs-newline-interp", "script", "$a = 1;\n$s = \"x {$a}\\\n$a \\\n\";\n$t = 1;\n"),
+		mk("bs-bs-newline", "script", "$s = \"a\\\\\nb\";\n$t = 1;\n"),
 		mk("plain", "script", "$a = 1;\n$b = \"x\ny\";\necho $a;\n"),
 	}
 }
@@ -623,6 +631,12 @@ func (d *driver) errlocRegression() {
 		mk("zy", false, false, nil, "mlinterp-heredoc-method"),
 		mk("zy", false, false, nil, "mlinterp-dq-call"),
 	}
+	progs = append(progs,
+		mk("php", false, false, []chunk{{Kind: "alt-loose-kw-paren", Text: "if\n($v0 > 0):\n$k1 = 1;\nendif;\n"}}, "throw"),
+		mk("php", false, false, []chunk{{Kind: "alt-loose-paren-colon", Text: "if ($v0 > 0)\n:\n$k1 = 1;\nendif;\n"}}, "throw"),
+		mk("php", false, false, []chunk{{Kind: "alt-if", Text: "if (\n    $v0 > 0\n):\n$k1 = 1;\nelseif (\n    $v0 < 0\n):\n$k1 = 2;\nendif;\n"}}, "throw"),
+		mk("php", false, false, []chunk{{Kind: "alt-while", Text: "$k2 = 1;\nwhile (\n    $k2 > 0\n):\n$k2--;\nendwhile;\n"}}, "undef-func"),
+		mk("zy", false, false, []chunk{{Kind: "bs-newline", Text: "$k3 = \"a\\\nb\\\nc\";\n$k4 = 'a\\\nb';\n"}}, "throw"))
 	sc := mk("php", false, false, nil, "undef-class-static")
 	sc.Wrap = "closure"
 	progs = append(progs, sc)
@@ -791,16 +805,20 @@ func gencheckMain(args []string) {
 	for _, k := range chunkKinds {
 		for _, mode := range []string{"zy", "php"} {
 			for _, crlf := range []bool{false, true} {
-				if mode == "zy" && (k == "html" || k == "html-ml") {
+				if mode == "zy" && phpOnlyChunk[k] || crlf && strings.HasPrefix(k, "alt-loose-") {
 					continue
 				}
-				g := &genState{r: e.Rand("gencheck/" + k), php: mode == "php", crlf: crlf}
-				p := &program{Mode: mode, CRLF: crlf, Head: []chunk{g.chunk(k), g.chunk(k)}}
-				src, _ := p.render()
-				o := runProgram(e, src, mode, false)
-				if o.Exit != 0 || o.Stderr != "" {
-					bad[k]++
-					fmt.Printf("--- chunk %s mode=%s crlf=%v exit=%d\n%s\n--- stderr: %s\n", k, mode, crlf, o.Exit, src, firstLine(o.Stderr))
+				for it := 0; it < 8; it++ {
+					g := &genState{r: e.Rand(fmt.Sprintf("gencheck/%s/%d", k, it)), php: mode == "php", crlf: crlf}
+					p := &program{Mode: mode, CRLF: crlf, Head: []chunk{g.chunk(k), g.chunk(k)}}
+					src, _ := p.render()
+					o := runProgram(e, src, mode, false)
+					if o.Exit != 0 || o.Stderr != "" {
+						bad[k]++
+						if bad[k] <= 2 {
+							fmt.Printf("--- chunk %s mode=%s crlf=%v exit=%d\n%s\n--- stderr: %s\n", k, mode, crlf, o.Exit, src, firstLine(o.Stderr))
+						}
+					}
 				}
 			}
 		}
